@@ -577,3 +577,34 @@ def r_const_width_monotone(ctx, db, est, ln, consts=None):
                "the bin index enters edge %d through operations of opposite monotonicity" % bad[0] if bad else "edge 1 is not provably >= start",
                F.show(edges[min(2, len(edges) - 1)])[:160]),
            sample={"edge2": F.show(edges[min(2, len(edges) - 1)])[:200]})
+
+
+def r_accessors(ctx, db, est, ln, consts=None):
+    """range_min / range_max / ranges() / bins() are exact views of the stored edges and counts"""
+    m = Machine(db, [], Config(release=True, consts=consts or {}))
+    a, ea, ba, rng, bn = hist_state(m, est, "self")
+    ref = VRef(a, (), False)
+    checks = [("range_min", ea[0]), ("range_max", ea[-1])]
+    for name, want in checks:
+        fp = est.m(name, None)
+        if fp is None:
+            ctx.floor("%s::%s present" % (est.path, name), 0, 1)
+            continue
+        try:
+            got = call(m, fp, [ref])
+        except (PathEnd, Unsupported) as e:
+            ctx.ob("R-IDENT", "%s:LEN=%d" % (name, ln), fp, R.fn_site(db, fp), False, "%s: %s" % (name, e), inc=True)
+            continue
+        ctx.ob("R-IDENT", "%s:LEN=%d" % (name, ln), fp, R.fn_site(db, fp), got == want, "%s() returns %s (stored edge %s)" % (name, show_val(got)[:40], show_val(want)[:40]))
+    for name, want in (("ranges", ea), ("bins", ba)):
+        fp = est.m(name, None) or est.m(name, "traits::Histogram")
+        if fp is None:
+            ctx.floor("%s::%s present" % (est.path, name), 0, 1)
+            continue
+        try:
+            r = call(m, fp, [ref])
+            els = [m.read_loc(r.cell, r.path + (i,)) for i in range(r.lo, r.hi)] if isinstance(r, VRef) and r.lo is not None else None
+        except (PathEnd, Unsupported) as e:
+            els = None
+        ok = els is not None and len(els) == len(want) and all(R.same(x, y) for x, y in zip(els, want))
+        ctx.ob("R-IDENT", "%s:LEN=%d" % (name, ln), fp, R.fn_site(db, fp), ok, "%s() is %s" % (name, "exactly the stored array" if ok else "not the stored array"))
